@@ -117,6 +117,8 @@ class ManagerCrash(Exception):
 
 
 ROOT_VIA_SYMLINK = False     # set per case by the check (every 4th case)
+RELATIVE_LINKS = False       # set per case by the check: running links found at a manager restart are in the
+#                              relative form the module docstring documents (running/<inst> -> ../apps/<container>)
 
 
 class Node:
@@ -423,6 +425,18 @@ class Node:
 
     # -- restarts ---------------------------------------------------------
     def restart_manager(self):
+        if RELATIVE_LINKS:
+            # links left by an earlier release: same container, relative target
+            for name in os.listdir(self.running_dir):
+                link = os.path.join(self.running_dir, name)
+                try:
+                    target = os.readlink(link)
+                except OSError:
+                    continue
+                if os.path.isabs(target) and os.path.dirname(target) in (self.apps_dir, os.path.realpath(self.apps_dir)):
+                    os.unlink(link)
+                    os.symlink(os.path.join('..', 'apps', os.path.basename(target)), link)
+                    self._count('running_links_made_relative')
         self.start_manager()
         return True
 
